@@ -64,7 +64,12 @@ def handle3 (op : String) (a obs : List String) : Option Verdict :=
     let okLen (o : String) : Bool := o == "err" || (o.startsWith "ok:" && o.length == 67)
     let prop := check [("no_trap", !isTrap obs),
       ("wrong_length_or_garbage_is_error_not_panic", okLen (get obs 0) && okLen (get obs 1) && okLen (get obs 2)),
-      ("from_str_is_either_format", get obs 2 == (if get obs 0 != "err" then get obs 0 else get obs 1))]
+      ("from_str_is_either_format", get obs 2 == (if get obs 0 != "err" then get obs 0 else get obs 1)),
+      -- a SHA-256 digest has 32 bytes: text with another number of components is malformed
+      -- (counted here on the raw text, independently of the parser model)
+      ("text_with_other_than_32_components_is_rejected",
+        (get obs 0 == "err" || (t.filter (· == 0x2c)).length + 1 == 32) &&
+        (get obs 1 == "err" || (t.filter (· == 0x3a)).length + 1 == 32))]
     pure (model, prop)
   | "idle.try" => do
     let ms ← parseNat (get a 1)
